@@ -531,6 +531,14 @@ def run(ck):
                   or (c["entry"] == "integrate2" and c.get("method") in (None, "lsoda", "vode", "ivode"))]
         for call, cls, what in sweep(ck, spec, grid, cs, stats, cases):
             violations.append((spec, grid, call, cls, what))
+    # ---- extra arguments of func / jac (the sensitivity systems hand their arrangement over this way)
+    for call in calls:
+        if call["entry"] != "integrateFuncJac":
+            continue
+        bad = args_check(call)
+        ck.case(dict(kind="args", call=call), nontrivial=True)
+        if bad:
+            ck.violation("extra-arguments-not-in-force", bad, dict(kind="args", call=call))
     # ---- several solves on one model: after `initial_time` alone is changed, the same grid must be solved from the new t0
     for spec in specs[:ck.budget(6, 40)]:
         try:
@@ -680,10 +688,44 @@ def dispatch_cases(ck, rng):
     return dict(eig=len(eig_cases), methods=len(meth_cases), disagreements=len(bad_e) + len(bad_m))
 
 
+def args_check(call):
+    """integrateFuncJac(func, jac, ..., args=(k,)): func and jac are given the extra argument on the whole grid.
+    y0' = -k y0, y1' = k y0 - c y1 (closed form); the default k of func differs from the one handed over"""
+    from pygom.model import ode_utils
+    c, k, a, b = 0.3, 2.5, 3.0, 1.0
+
+    def f(t, y, k=1.0):
+        return np.array([-k * y[0], k * y[0] - c * y[1]])
+
+    def J(t, y, k=1.0):
+        return np.array([[-k, 0.0], [k, -c]])
+    grid = np.array([0.5, 1.0, 2.0, 3.0])
+    origin = call.get("origin", True)
+    try:
+        with warnings.catch_warnings():
+            warnings.simplefilter("ignore")
+            r = ode_utils.integrateFuncJac(f, J, np.array([a, b]), 0.0, grid, args=(k,), includeOrigin=origin,
+                                           full_output=call.get("full", False), method=call.get("method"))
+    except Exception as e:      # noqa: B902
+        return "integrateFuncJac(%s, args=(%r,)) raised %s: %s" % (fmt_call(call), k, type(e).__name__, str(e)[:120])
+    rows = np.asarray(r[0] if isinstance(r, tuple) else r, dtype=float)
+    tt = np.concatenate([[0.0], grid]) if origin else grid
+    ref = np.column_stack([a * np.exp(-k * tt), b * np.exp(-c * tt) + a * k * (np.exp(-k * tt) - np.exp(-c * tt)) / (c - k)])
+    if not close(rows, ref, TOL_ODE):
+        dflt = np.column_stack([a * np.exp(-tt), b * np.exp(-c * tt) + a * (np.exp(-tt) - np.exp(-c * tt)) / (c - 1.0)])
+        return ("integrateFuncJac(%s, args=(%r,)) on y0' = -k y0, y1' = k y0 - %g y1 returns %s, the solution for k = %r is %s%s"
+                % (fmt_call(call), k, c, rows.tolist(), k, ref.tolist(),
+                   " (rows equal to the solution for the default k = 1 of func: %s)"
+                   % [i for i in range(len(tt)) if rows.shape == ref.shape and close(rows[i], dflt[i], TOL_ODE)]))
+    return None
+
+
 def replay(ck, data):
     inp = data.get("input")
     if not inp:
         return None
+    if inp.get("kind") == "args":
+        return args_check(inp["call"])
     spec, grid, call = inp["spec"], inp["grid"], inp["call"]
     if inp.get("kind") == "sequence-initial_time":
         m = build(spec)
